@@ -5,6 +5,9 @@
 From Coq Require Import ZArith List Bool Lia.
 From PT Require Import Base.Scalar Base.BigSum Base.Mx Model.OpGraph Model.C17Common Model.OpTree Model.AutOp Model.DenseOp
                        Proofs.C17GraphSem Proofs.C17AutOp Proofs.C17AutPath Proofs.C17OpTree Proofs.C17Kron Proofs.C17Dense.
+(* "both graphs are consistent and of the requested length" (section (d) at the end of this file) *)
+From PT Require Import Model.Rewrites Proofs.RewritesBase Proofs.C17LenBase Proofs.C17LenAut Proofs.C17LenTree
+                       Proofs.C17LenSimplify Proofs.C17LenTop.
 Import ListNotations.
 Open Scope Z_scope.
 
@@ -220,5 +223,135 @@ Example C17_graph_dense_nonvacuous_matrix :
   | Ok M, Ok M0 => Nat.eqb (nr M) 4 && keqb GIring (get M 0 0) (0, 0) && keqb GIring (get M 0 1) (3, 0) &&
                    keqb GIring (get M 1 1) (-2, 0) && mxeqb M M0
   | _, _ => false
+  end = true.
+Proof. vm_compute. reflexivity. Qed.
+
+(* ------------------------------------------------------------------------------------------------
+   (d) "Both graphs are consistent and of the requested length."  [WF] is C16's well-formedness
+   (Proofs/RewritesBase.v: unique keys, duplicate-free edge-id lists, node <-> edge references in both directions,
+   sorted opics, clean terminals, NO DANGLING NODES, a level function); [glength] follows the first out-edge from
+   the start terminal exactly like OpGraph.length; [is_consistent_fuel] is the mirror of OpGraph.is_consistent
+   (its breadth-first level search re-enumerates all walks, so for a fixed fuel it may answer None; it never
+   answers Some false).  These replace the two "NOT PROVED in general" remarks of sections (a) and (b). *)
+
+(* automata: the graph that from_automaton hands to its final assertion is well formed, has length L and cannot
+   fail the consistency check.  Every active node of layer i+1 has an in-edge from layer i and every active node of
+   layer i < L an out-edge into layer i+1, because active = forward reachable and backward co-reachable. *)
+Theorem C17_from_automaton_raw_wellformed : forall (R : cring) (aut : autop R) (L : nat) (g : graph R),
+  aut_consistent aut = true -> from_automaton_raw aut L = Ok g ->
+  WF R g /\ glength g = Some L /\ forall fuel b, is_consistent_fuel fuel g = Some b -> b = true.
+Proof. exact from_automaton_raw_wellformed. Qed.
+Print Assumptions C17_from_automaton_raw_wellformed.
+
+Theorem C17_from_automaton_length : forall (R : cring) (aut : autop R) (L : nat) (g : graph R),
+  aut_consistent aut = true -> from_automaton aut L = Some g -> glength g = Some L.
+Proof. exact from_automaton_length. Qed.
+Print Assumptions C17_from_automaton_length.
+
+(* a theorem about the construction (C17_from_automaton_consistent above only records that the model mirrors the
+   code's own assertion): for every fuel the check cannot answer False *)
+Theorem C17_from_automaton_consistent_all : forall (R : cring) (aut : autop R) (L : nat) (g : graph R) fuel b,
+  aut_consistent aut = true -> from_automaton aut L = Some g -> is_consistent_fuel fuel g = Some b -> b = true.
+Proof. exact from_automaton_consistent_all. Qed.
+Print Assumptions C17_from_automaton_consistent_all.
+
+(* the line [assert graph.is_consistent()] of from_automaton is unreachable as a failure: once the construction
+   has produced its graph, the model's from_automaton_r returns it (or runs out of the model's own fuel) *)
+Theorem C17_from_automaton_assert_unreachable : forall (R : cring) (aut : autop R) (L : nat) (g : graph R),
+  aut_consistent aut = true -> from_automaton_raw aut L = Ok g ->
+  from_automaton_r aut L = Ok g \/ from_automaton_r aut L = Err EFuel.
+Proof. exact from_automaton_assert_unreachable. Qed.
+Print Assumptions C17_from_automaton_assert_unreachable.
+
+(* STILL NOT PROVED (validated per generated case by check_from_automaton / check_aut_den):
+     aut_consistent aut = true -> (exists w, aut_den aut L w <> 0) -> exists g, from_automaton aut L = Some g
+   i.e. that the three assertions on the active layers never fire when a path exists, and that the model's fuel
+   [cons_fuel] for the level search suffices. *)
+
+(* the hypothesis [aut_consistent] is needed for the length: an automaton whose edge 2 -> 4 is missing from the
+   out-list of node 2 (AutOp.is_consistent rejects it) yields a graph with a dangling node that passes
+   OpGraph.is_consistent, and OpGraph.length (first out-edges) answers 1 instead of 3 *)
+Example C17_length_needs_consistent_automaton :
+  let c (o : Z) : nat -> list (Z * GI) := fun _ => [(o, (1, 0))] in
+  let a : nat -> bool := fun _ => true in
+  let aut := mkautop [mknode 0 [] [0; 2] 0; mknode 1 [5; 4] [] 0; mknode 2 [2] [] 0; mknode 3 [0] [1] 0;
+                      mknode 4 [3] [4] 0; mknode 5 [1] [5] 0]
+                     [@mkaedge GIring 0 0 3 (c 1) a; @mkaedge GIring 1 3 5 (c 1) a; @mkaedge GIring 5 5 1 (c 1) a;
+                      @mkaedge GIring 2 0 2 (c 2) a; @mkaedge GIring 3 2 4 (c 2) a; @mkaedge GIring 4 4 1 (c 2) a] 0 1 in
+  negb (aut_consistent aut) &&
+  match from_automaton aut 3 with Some g => glength_is g 1 && negb (wfb g) | None => false end = true.
+Proof. vm_compute. reflexivity. Qed.
+
+(* trees, before simplify().  Identity strings are inserted before a tree's start site and after its leaves; leaves
+   exactly at the terminal reuse the terminal node.  Hypotheses: the model accepts the list (charges consistent,
+   heights fit), start sites are non-negative (a negative start site makes the code build paths longer than L), and
+   for the length at least one tree (the empty list gives the two isolated terminals: consistent, length 0). *)
+Theorem C17_from_optrees_raw_wellformed : forall (R : cring) (ts : list (optree R)) (L : nat) (oid_id : Z) (g : graph R),
+  ts <> [] -> Forall (fun t => 0 <= ot_istart t) ts ->
+  from_optrees_raw ts (Z.of_nat L) oid_id = Some g -> WF R g.
+Proof. exact from_optrees_raw_WF. Qed.
+Print Assumptions C17_from_optrees_raw_wellformed.
+
+Theorem C17_from_optrees_raw_length : forall (R : cring) (ts : list (optree R)) (L : nat) (oid_id : Z) (g : graph R),
+  ts <> [] -> Forall (fun t => 0 <= ot_istart t) ts ->
+  from_optrees_raw ts (Z.of_nat L) oid_id = Some g -> glength g = Some L.
+Proof. exact from_optrees_raw_length. Qed.
+Print Assumptions C17_from_optrees_raw_length.
+
+Theorem C17_from_optrees_raw_consistent : forall (R : cring) (ts : list (optree R)) (L : nat) (oid_id : Z) (g : graph R) fuel b,
+  Forall (fun t => 0 <= ot_istart t) ts -> from_optrees_raw ts (Z.of_nat L) oid_id = Some g ->
+  is_consistent_fuel fuel g = Some b -> b = true.
+Proof. exact from_optrees_raw_consistent. Qed.
+Print Assumptions C17_from_optrees_raw_consistent.
+
+(* trees, after simplify() (through C16: C16_simplify, C16_simplify_terminates, C16_passes_own_check): simplify
+   returns a graph; it is well formed, hence consistent; it denotes the padded-tree sum; it has length L (simplify
+   keeps both terminals and every level function); it has no more nodes and edges than the raw graph. *)
+Theorem C17_from_optrees_simplified : forall (R : cring) (ts : list (optree R)) (L : nat) (oid_id : Z) (g : graph R),
+  ts <> [] -> Forall (fun t => 0 <= ot_istart t) ts ->
+  from_optrees_raw ts (Z.of_nat L) oid_id = Some g ->
+  (exists g', simplify g = Some g') /\
+  forall g', simplify g = Some g' ->
+    WF R g' /\ (forall w, den g' w = optrees_den oid_id L ts w) /\ glength g' = Some L /\
+    (forall fuel b, is_consistent_fuel fuel g' = Some b -> b = true) /\
+    (length (g_edges g') <= length (g_edges g))%nat /\ (length (g_nodes g') <= length (g_nodes g))%nat.
+Proof. exact from_optrees_simplified. Qed.
+Print Assumptions C17_from_optrees_simplified.
+
+(* non-vacuity.  The Ising automaton (L = 5): consistent, the model returns a graph, C16's boolean well-formedness
+   check and the length agree with the theorems.  A ragged tree list (branching, leaves at depths 1, 2, 3, one leaf
+   exactly at the terminal, one tree starting at site 1): accepted, raw and simplified graphs well formed, length 3. *)
+Example C17_ising_length_nonvacuous :
+  let aut := ising_aut (2, 0) (-1, 0) (3, 0) in
+  aut_consistent aut &&
+  match from_automaton_raw aut 5, from_automaton aut 5 with
+  | Ok g, Some g' => graph_eqb g g' && wfb g && glength_is g 5 && Nat.eqb (length (g_nodes g)) 14
+  | _, _ => false
+  end = true.
+Proof. vm_compute. reflexivity. Qed.
+
+Example C17_optrees_length_nonvacuous :
+  let t1 := mkoptree (@TNode GIring 0 [(1, (2, 0), @TNode GIring 0 [(2, (1, 0), @TNode GIring 0 []); (1, (3, 0), @TNode GIring 0 [(1, (1, 0), @TNode GIring 0 [])])]);
+                                       (2, (-1, 0), @TNode GIring 0 [])]) 0 in
+  let t2 := mkoptree (@TNode GIring 0 [(1, (1, 1), @TNode GIring 0 [])]) 1 in
+  forallb (fun t => 0 <=? ot_istart t) [t1; t2] &&
+  match from_optrees_raw [t1; t2] 3 0 with
+  | Some g => wfb g && glength_is g 3 &&
+              match simplify g with
+              | Some g' => wfb g' && glength_is g' 3 && Nat.ltb (length (g_nodes g')) (length (g_nodes g)) &&
+                           keqb GIring (den g' [1; 1; 1]) (6, 0)
+              | None => false
+              end
+  | None => false
+  end = true.
+Proof. vm_compute. reflexivity. Qed.
+
+(* the side conditions are needed: the empty list has length 0, not L; a negative start site next to a regular
+   tree reaches the end terminal at two different levels and fails the consistency check *)
+Example C17_optrees_side_conditions_needed :
+  match from_optrees_raw (@nil (optree GIring)) 2 0 with Some g => glength_is g 0 | None => false end &&
+  match from_optrees_raw [mkoptree (@TNode GIring 0 []) (-1); mkoptree (@TNode GIring 0 []) 0] 1 0 with
+  | Some g => match is_consistent g with Some false => true | _ => false end
+  | None => false
   end = true.
 Proof. vm_compute. reflexivity. Qed.
